@@ -870,8 +870,9 @@ def same_bytes(a, b):
 class SymBytes:
     """bytes / bytearray content with concrete length; elements are int or SymInt in 0..255"""
 
-    def __init__(self, elems=()):
+    def __init__(self, elems=(), mutable=False):
         self.e = list(elems)
+        self.mutable = mutable      # True: stands for a bytearray (+= extends in place, aliasing visible); False: bytes
 
     def __len__(self):
         return len(self.e)
@@ -879,7 +880,7 @@ class SymBytes:
     def __getitem__(self, i):
         if isinstance(i, slice):
             i = slice(_cidx(i.start), _cidx(i.stop), _cidx(i.step))
-            return SymBytes(self.e[i])
+            return SymBytes(self.e[i], self.mutable)
         return self.e[_cidx(i)]
 
     def __iter__(self):
@@ -894,10 +895,13 @@ class SymBytes:
 
     def __radd__(self, o):
         if isinstance(o, (bytes, bytearray)):
-            return SymBytes(list(o) + self.e)
+            return SymBytes(list(o) + self.e, isinstance(o, bytearray))
         return NotImplemented
 
     def __iadd__(self, o):
+        if self.mutable and isinstance(o, (bytes, bytearray, SymBytes)):
+            self.e.extend(list(o))          # bytearray semantics: extend in place (an alias sees the new bytes)
+            return self
         r = self.__add__(o)
         if r is NotImplemented:
             return r
